@@ -13,7 +13,7 @@ import (
 func init() {
 	register(&PropRules{
 		ID:      "C06",
-		Explain: "Guard structure of the web API decided on every CFG path of every registered handler (handlers are discovered from the webHandler{…,H} literals): (C06.1) Store.Add/Remove/SetAdmin/List/ListFull are called only under sessions.Check(request.Session) status==200 ∧ isAdmin; (C06.2) Store.Update(T,·) only under status==200 ∧ (isAdmin ∨ session user == T) with Session≠\"\" ∧ OldPassword==\"\", or under Store.Authenticate(T, OldPassword) ok ∧ err==nil with Session==\"\" ∧ OldPassword≠\"\"; (C06.3) sessions.Generate(U,A) only under Store.Authenticate(U,·) ok ∧ err==nil with A the store-reported flag; (C06.4) every status-200 response is under the handler's gate and, for mutating handlers, under the store call's err==nil; list payloads come only from Store.List/ListFull; (C06.5) every request field handed to sessions.Check or the Store is known non-empty; (C06.6) the Store mutators are called only from gated handlers and CLI actions, never from functions reachable from the SASL/LDAP/basic-auth/authenticate roots.",
+		Explain: "Guard structure of the web API decided on every CFG path of every registered handler (handlers are discovered from the webHandler{…,H} literals): (C06.1) Store.Add/Remove/SetAdmin/List/ListFull are called only under sessions.Check(request.Session) status==200 ∧ isAdmin; (C06.2) Store.Update(T,·) only under status==200 ∧ (isAdmin ∨ session user == T) with Session≠\"\" ∧ OldPassword==\"\", or under Store.Authenticate(T, OldPassword) ok ∧ err==nil with Session==\"\" ∧ OldPassword≠\"\"; (C06.3) sessions.Generate(U,A) only under Store.Authenticate(U,·) ok ∧ err==nil with A the store-reported flag; (C06.4) every status-200 response is under the handler's gate and, for mutating handlers, under the store call's err==nil; list payloads come only from Store.List/ListFull; (C06.5) every request field handed to sessions.Check or the Store is known non-empty; (C06.6) the Store mutators are called only from gated handlers and CLI actions, never from functions reachable from the SASL/LDAP/basic-auth/authenticate roots. (C06.7) on every path into cipher.AEAD.Open the nonce length equals NonceSize(); (C06.8) the session window rule of C07.4 (a token is accepted only with 0 <= age <= lifetime).",
 		Undec:   []string{"sessions.Check itself (C07)", "JSON decoding ambiguities (duplicate keys, case-insensitive field match) inside encoding/json", "byte-for-byte equality of the store at run time (follows from 'no mutator call' + C15)", "closure under request sequences"},
 		Run:     runC06,
 		Floors:  map[string]int{"C06.1": 5, "C06.2": 1, "C06.3": 1, "C06.4": 8, "C06.5": 8, "C06.6": 5},
